@@ -8,7 +8,7 @@ EXTRA_VO = ["Exec/RunC20.vo", "Exec/RunC18.vo"]
 
 HEADER18 = c18.HEADER
 HEADER20 = """From Coq Require Import ZArith List String.
-From ACV Require Import Model.Skeleton Exec.RunC20.
+From ACV Require Import Model.Skeleton Model.SkelCreate Exec.RunC20.
 Import ListNotations. Open Scope string_scope."""
 
 TRUSTED_BASE = [
@@ -139,6 +139,33 @@ def coq_verify_case(suite, a):
     proofs = "[" + "; ".join(proof(p) for p in a["proofs"]) + "]"
     rep = "[" + "; ".join("(%d, [%s])" % (I(sid), "; ".join(f"({L(l)}, {int(sc, 16)}%Z)" for l, sc in m)) for sid, m in a["disclosed"]) + "]"
     return f"KVer {'PS' if suite == 'ps' else 'BBS'} {stmts} (Ps {proofs} {rep})"
+
+
+def coq_create_case(a):
+    """structural abstract of (credentials, schema) -> Coq term KCre; None when IndexMap invariants cannot be expressed"""
+    I, L = Interner(), Interner()
+    bigs = set()
+    for s in a["stmts"]:
+        bigs.add(int(s.get("claim", 0)))
+        bigs.update(int(r[1]) for r in s.get("refs", []))
+        if int(s.get("keylen", 0)) > 1000:
+            return None
+    comp = {v: 1001 + k for k, v in enumerate(sorted(x for x in bigs if x > 1000))}
+    cv = lambda x: comp.get(int(x), int(x))
+
+    def cred(c):
+        if c["k"] == "sig":
+            return f"({I(c['key'])}, CredSig {C.clist([C.cbool(b) for b in c['is_number']])})"
+        return f"({I(c['key'])}, CredMem)"
+
+    def stmt(s):
+        refs = "[" + "; ".join(f"({I(r[0])}, {cv(r[1])})" for r in s.get("refs", [])) + "]"
+        disclosed = "[" + "; ".join(str(L(x)) for x in s.get("disclosed", [])) + "]"
+        labels = "[" + "; ".join(str(L(x)) for x in s.get("labels", [])) + "]"
+        return (f"(Cs {I(s['key'])} {KINDS[s['k']]} {I(s['id'])} {I(s.get('ref', ''))} {I(s.get('sig', ''))} {cv(s.get('claim', 0))} "
+                f"{refs} {disclosed} {labels} {int(s.get('keylen', 0))})")
+
+    return "KCre " + C.clist([cred(c) for c in a["creds"]]) + " " + C.clist([stmt(s) for s in a["stmts"]])
 
 
 def select(tags, rng, sample):
@@ -289,6 +316,7 @@ def explore(ctx):
     for i, r in zip(order, outs):
         resB[i] = r
     vterms, vmeta = [], []
+    cterms, cmeta = [], []
     for part, op, r in zip(owner, ops, resB):
         if r.get("r") != "ok" or "results" not in r:
             raise C.Infra(f"{part}: unexpected harness answer {json.dumps(r)[:300]}")
@@ -313,6 +341,11 @@ def explore(ctx):
                 if t is not None:
                     vterms.append(t)
                     vmeta.append((part, x, one))
+            if part.startswith("create") and "abs" in x:
+                t = coq_create_case(x["abs"])
+                if t is not None:
+                    cterms.append(t)
+                    cmeta.append((part, x, one))
     C.log(f'[c20] part B impl {time.time()-T0:.0f}s')
     # the skeleton on the same structures
     modelB = C.run_model("C20", HEADER20, vterms, shard_size=250, tag="skel") if vterms else []
@@ -325,6 +358,18 @@ def explore(ctx):
             failures.append({"class": None, "witness": False,
                              "text": f"correspondence broken: {x['desc']}: Presentation::verify accepts a structure the skeleton rejects when every cryptographic test passes",
                              "case": {"part": part, "mutation": x["desc"], "abs": x["abs"], "op": one}})
+    # the creation skeleton on the (credentials, schema) structures
+    modelC = C.run_model("C20", HEADER20, cterms, shard_size=250, tag="skelc") if cterms else []
+    for (part, x, one), m in zip(cmeta, modelC):
+        bump("B:create verdicts impl=%s model=%s" % (x["out"], m.strip()))
+        if m.strip() == "panic":
+            failures.append({"class": None, "witness": False, "text": "the creation skeleton evaluates to Panic (contradicts C20_create_total)", "case": {"op": one}})
+        if m.strip() == "err" and x["out"] == "ok":
+            failures.append({"class": None, "witness": False,
+                             "text": f"correspondence broken: {x['desc']}: Presentation::create succeeds on a structure the skeleton rejects when every builder's own test passes",
+                             "case": {"part": part, "mutation": x["desc"], "abs": x["abs"], "op": one}})
+    for (part, x, one), m in list(zip(cmeta, modelC))[:: max(1, len(cmeta) // 3)]:
+        samples.append({"part": part, "mutation": x["desc"], "impl": x["out"], "create_skeleton_all_tests_pass": m.strip()})
     for (part, x, one), m in list(zip(vmeta, modelB))[:: max(1, len(vmeta) // 4)]:
         samples.append({"part": part, "mutation": x["desc"], "impl": x["out"], "skeleton_all_tests_pass": m.strip()})
 
